@@ -66,7 +66,7 @@ def one(commit, subject, kf, args):
         detected = {}
         env = dict(os.environ, VERIF_REPO=wt)
         for p in props + ([] if "C07" in props else ["C07"]):
-            if p == "C07" and any(detected.values()):
+            if p == "C07" and any(d.get("detected") for d in detected.values()):
                 continue
             t0 = time.time()
             c = sh([os.path.join(V, "check"), p, "--tier", "quick"], env=env, cwd=V)
